@@ -290,13 +290,13 @@ class AReader:
 
 class AWriter:
     def __init__(self):
-        self.buf = AB(); self.drains = 0
+        self.buf = AB(); self.drains = 0; self.events = []
 
     def write(self, b):
-        self.buf = self.buf + b
+        self.buf = self.buf + b; self.events.append("w")
 
     async def drain(self):
-        self.drains += 1
+        self.drains += 1; self.events.append("d")
 
 
 def _payload_of_pickled_len(want):
@@ -325,6 +325,22 @@ def _real_frames(ls, cut, rs):
     payloads = [_payload_of_pickled_len(min(l, 1 << 22)) for l in ls]
     frames_ = [IPC.encode_message(ids[i], payloads[i]) for i in range(len(ls))]
     data = b"".join(frames_)
+
+    class _RecWriter:
+        def __init__(self):
+            self.events = []; self.buf = b""
+
+        def write(self, b):
+            self.events.append("w"); self.buf += bytes(b)
+
+        async def drain(self):
+            self.events.append("d")
+    for i in range(len(ls)):
+        rw = _RecWriter()
+        asyncio.run(IPC.stream_send_msg(rw, ids[i], payloads[i]))
+        ev = rw.events
+        if rw.buf != frames_[i] or "w" not in ev or "d" not in ev or "w" in ev[ev.index("d"):]:
+            return False                              # frame not handed over in one piece before the first suspension point
     total = len(data)
     cutb = total if cut >= sum(20 + l for l in ls) else min(cut, total)
     bounds_ = []
@@ -398,15 +414,21 @@ def frames_abstract(l1: int, l2: int, l3: int, cut: int, r1: int, r2: int, r3: i
     try:
         w = AWriter()
         for i in range(n):
+            e0 = len(w.events)
             k, v = step(IPC.stream_send_msg(w, AUid(IDS[i]), bodies[i]))
             if k != 'ret':
+                return verdict(False)
+            # sending one message is atomic on the IO loop: every byte of the frame is handed to the transport BEFORE the first
+            # point at which another sender on the same connection could run (drain may suspend)
+            ev = w.events[e0:]
+            if "w" not in ev or "d" not in ev or "w" in ev[ev.index("d"):]:
                 return verdict(False)
         stream = w.buf
         total = len(stream)
         want = 0
         for i in range(n):
             want = want + 20 + ls[i]
-        if total != want or w.drains != n:
+        if total != want:
             return verdict(False)
         if cut > total:
             cut = total
@@ -587,6 +609,8 @@ class _StubClient(IPC.NetworkClient):
     """the real client-side handle code (NetworkClient.__call__, KGRemoteFnProxy, NetworkClientDictHandle) over a transport that
     hands every message straight to the real server-side execute_server_command"""
     def __init__(self, server):
+        # the real constructor runs (a refactoring may add state there); loops, interpreter and provider are inert stand-ins
+        IPC.NetworkClient.__init__(self, Loop(), Loop(), server, Prov(True))
         self.server = server; self.sent = []
 
     def is_open(self):
@@ -603,7 +627,7 @@ class _StubClient(IPC.NetworkClient):
 
 def remote_forms(kind: int, a: int, b: int) -> bool:
     """
-    pre: 0 <= kind <= 7
+    pre: 0 <= kind <= 8
     post: _
     """
     # every remote operation form of the client returns / stores what the same operation yields locally on the server:
@@ -648,6 +672,16 @@ def remote_forms(kind: int, a: int, b: int) -> bool:
             return verdict(q(None, {X: a, Y: b}) == a - 2 * b)
         if kind == 6:                       # :undefined arrives as :undefined
             return verdict(d.get(undef) is KLONG_UNDEFINED and nc(None, {X: "undef"}) is KLONG_UNDEFINED)
+        if kind == 8:                       # the server redefines name with another arity between two look-ups
+            q1 = nc(None, {X: name})
+            class _Mon(KGLambda):
+                def __init__(self): pass
+                def __call__(self, klong, ctx): return ctx[X] + 7
+                def get_arity(self): return 1
+            table[name] = _Mon()
+            q2 = nc(None, {X: name}); q3 = d.get(name)
+            return verdict(q1.get_arity() == 2 and q2.get_arity() == 1 and q3.get_arity() == 1
+                           and q2(None, {X: a}) == a + 7 and q3(None, {X: b}) == b + 7)
         # a server-side failure reaches the caller as an error, and the next call works
         try:
             d.get(KGSym('absent'))
